@@ -32,7 +32,7 @@ import (
 // panic.
 //
 // work is temporary storage, and lwork specifies the usable memory length. At
-// minimum, lwork >= m if side == blas.Left and lwork >= n if side ==
+// minimum, lwork >= n if side == blas.Left and lwork >= m if side ==
 // blas.Right, and this function will panic otherwise. Larger values of lwork
 // will generally give better performance. On return, work[0] will contain the
 // optimal value of lwork.
